@@ -42,6 +42,10 @@ pub enum Step {
     /// the owner of a synthetic target's code pages makes them read+execute again (what a code
     /// generator does after emitting): nothing the injector may rely on stays writable
     Reseal { t: u8 },
+    /// somebody else maps executable code of their own on every page the injector has given back
+    /// (unmapped) since this lifetime began: that memory was released, whoever maps there next
+    /// owns it, and nothing the injector does later may touch it
+    SquatReleased,
 }
 
 #[derive(Serialize, Deserialize, Clone, Debug, Hash, PartialEq, Eq)]
@@ -141,6 +145,9 @@ pub struct StepObs {
     /// Call: the call panicked (over-called fake)
     #[serde(default)]
     pub call_panic: Option<String>,
+    /// SquatReleased: pages the harness mapped code of its own on
+    #[serde(default)]
+    pub squatted: Vec<u64>,
 }
 
 #[derive(Serialize, Deserialize, Clone, Debug, Default)]
@@ -499,6 +506,41 @@ fn execute_inner(c: &HistCase, opts: &Opts) -> HistObs {
                             so.kind = "reseal/done".into();
                         }
                     }
+                    Step::SquatReleased => {
+                        so.kind = "squat".into();
+                        let mut pages: Vec<u64> = vec![];
+                        for e in ip::log_snapshot() {
+                            if e.kind == ip::Kind::Munmap && e.ret == 0 {
+                                let mut p = e.a0 & !0xFFF;
+                                while p < e.a0 + e.a1.max(1) && pages.len() < 8 {
+                                    if !pages.contains(&p) && !squats.contains(&p) {
+                                        pages.push(p);
+                                    }
+                                    p += 4096;
+                                }
+                            }
+                        }
+                        for page in pages {
+                            let page = page as usize;
+                            unsafe {
+                                let p = ip::sys_mmap(page, PAGE, libc::PROT_READ | libc::PROT_WRITE, libc::MAP_PRIVATE | libc::MAP_ANONYMOUS | 0x100000, -1, 0);
+                                if p == page {
+                                    for k in 0..256usize {
+                                        let mut code = [0xB8u8, 0, 0, 0, 0, 0xC3];
+                                        code[1..5].copy_from_slice(&(0x5D00 + k as u32).to_le_bytes());
+                                        std::ptr::copy_nonoverlapping(code.as_ptr(), (page + 16 * k) as *mut u8, 6);
+                                    }
+                                    ip::sys_mprotect(page, PAGE, libc::PROT_READ | libc::PROT_EXEC);
+                                    squats.push(page as u64);
+                                    so.squatted.push(page as u64);
+                                    // (no longer a trampoline of this lifetime)
+                                    kept.retain(|g| (g.0 & !0xFFF) as usize != page);
+                                } else if p != ip::MAP_FAILED {
+                                    ip::sys_munmap(p, PAGE);
+                                }
+                            }
+                        }
+                    }
                     Step::Call { t } => {
                         let ti = *t as usize % n;
                         so.kind = "call".into();
@@ -661,6 +703,7 @@ pub fn strategy_all(max_lifetimes: usize, max_steps: usize, synth_bias_last_slot
         3 => (0u8..12, kind_strategy(), 0u8..4).prop_map(|(t, kind, k)| Step::Install { t, kind, k }),
         2 => (0u8..12).prop_map(|t| Step::Call { t }),
         1 => (9u8..14).prop_map(|t| Step::Reseal { t }),
+        1 => if squat > 0.0 { Just(Step::SquatReleased).boxed() } else { (9u8..14).prop_map(|t| Step::Reseal { t }).boxed() },
     ];
     let rw = if rewrites { prop::option::weighted(0.25, (any::<u8>(), any::<u16>())).boxed() } else { Just(None).boxed() };
     // a "re-fake run": one function faked 3-5 times in a row from a palette of two kinds (so that
@@ -692,6 +735,7 @@ pub fn strategy_all(max_lifetimes: usize, max_steps: usize, synth_bias_last_slot
                         Step::Install { t, kind, k } => Step::Install { t: focus.wrapping_add(t % 4), kind, k },
                         Step::Call { t } => Step::Call { t: focus.wrapping_add(t % 4) },
                         Step::Reseal { t } => Step::Reseal { t: focus.wrapping_add(t % 4) },
+                        Step::SquatReleased => Step::SquatReleased,
                     })
                     .collect(),
                 exit: l.exit,
